@@ -166,21 +166,21 @@ def parseOp (h : Hub) (cmd : String) (ws : List String) : Option MOp := do
 /-- the client's pagination loop (`pages` op): from the empty cursor while the returned cursor is
 non-empty, at most 64 requests; the cursor goes through the string encoding and back. -/
 def pagesLoop (rc : RawCfg) (ch : Nat) (lim : Int) (asc : Bool) :
-    Nat → Hub → Option Cursor → Nat → List Nat → List Key → Hub × String
-  | 0, h, _, n, sizes, keys =>
-    (h, s!"ok n={n} done=0 sizes={joinWith "," (sizes.map toString)} keys={if keys.isEmpty then "-" else joinWith "," (keys.map showKey)}")
-  | fuel + 1, h, cur, n, sizes, keys =>
+    Nat → Hub → Option Cursor → Nat → List Nat → List Key → Pos → Hub × String
+  | 0, h, _, n, sizes, keys, lp =>
+    (h, s!"ok pos={showPos lp} n={n} done=0 sizes={joinWith "," (sizes.map toString)} keys={if keys.isEmpty then "-" else joinWith "," (keys.map showKey)}")
+  | fuel + 1, h, cur, n, sizes, keys, _ =>
     let r := getState rc h ch { cursor := cur, limit := lim, asc := asc }
     match r.2.res with
-    | .state pubs _ c ord =>
+    | .state pubs lp c ord =>
       let keys := keys ++ pubs.map (·.key)
       let sizes := sizes ++ [pubs.length]
       match c with
       | none =>
-        (r.1, s!"ok n={n + 1} done=1 sizes={joinWith "," (sizes.map toString)} keys={if keys.isEmpty then "-" else joinWith "," (keys.map showKey)}")
+        (r.1, s!"ok pos={showPos lp} n={n + 1} done=1 sizes={joinWith "," (sizes.map toString)} keys={if keys.isEmpty then "-" else joinWith "," (keys.map showKey)}")
       | some _ =>
         let raw := (parseKey (showCursor c ord)).getD []
-        pagesLoop rc ch lim asc fuel r.1 (parseCursor raw) (n + 1) sizes keys
+        pagesLoop rc ch lim asc fuel r.1 (parseCursor raw) (n + 1) sizes keys lp
     | other => (r.1, showRes other)
 
 def stepLine (st : DState) (line : String) : DState × String :=
@@ -200,7 +200,7 @@ def stepLine (st : DState) (line : String) : DState × String :=
       else if cmd == "pages" then
         match kvNat ws "ch", kvInt ws "lim", parseBool (kv ws "asc") with
         | some ch, some lim, some asc =>
-          let r := pagesLoop (cfgOf st1.cfgs ch) ch lim asc 64 st1.hub none 0 [] []
+          let r := pagesLoop (cfgOf st1.cfgs ch) ch lim asc 64 st1.hub none 0 [] [] ⟨0, 0⟩
           ({ st1 with hub := r.1 }, s!"sw={sw} {r.2} bc=-")
         | _, _, _ => (st, "bad-op")
       else
